@@ -128,7 +128,7 @@ fn table_expected(e: &Expect) -> Vec<(String, Option<(Vec<(String, Option<String
                 TableEntry::Bare => None,
                 TableEntry::ExtNoBody => Some((vec![], None)),
                 TableEntry::Ext(b) => Some((vec![], Some(b.clone()))),
-                TableEntry::Def(m) => {
+                TableEntry::Def(m, _, _) => {
                     let formals = m.formals.clone().unwrap_or_default();
                     let body = m.body.as_ref().map(|_| {
                         let d = render_define(m);
